@@ -88,6 +88,16 @@ def targeted_cases(rng):
                 ("f", ("b", EQ, x("row"), ("n", 99)), [("t", "no")], [(("b", LT, x("v"), x("row")), [("t", "L"), ("v", P("v"))]), (("b", EQ, x("row"), x("v")), [("t", "E")])])])], [])])],
             [("l", P("items"), "item", "g", 0, [("l", P("item"), "row", "", 0, [chain(x("row", ["val"]), a, b, c)]), ("t", "|")])],
         ]
+        # unsigned results in [2^63, 2^64): printed as naturals wherever a math tag may stand
+        root["big"] = 18446744073709551615
+        root["b63"] = 9223372036854775808
+        asts += [
+            [("m", ("b", ADD, x("big"), ("n", 0))), ("t", " "), ("v", P("big")), ("t", " "), ("r", P("b63")), ("t", " "), ("m", ("b", ADD, ("n", 9223372036854775807), ("n", 1)))],
+            [("l", P("list"), "v", "", 0, [("m", ("b", ADD, x("b63"), x("v"))), ("t", ",")])],
+            [("i", ("b", GT, x("n1"), ("n", 0)), [("m", ("b", MUL, x("b63"), ("n", 1))), ("t", "!")], [("m", ("b", ADD, x("big"), ("n", 0)))])],
+            [("f", ("b", EQ, x("big"), x("big")), [("m", ("b", ADD, ("b", MUL, ("n", 4611686018427387904), ("n", 3)), ("n", 5)))], [(None, [("t", "ne")])])],
+            # (comparisons < > <= >= and truth tests on naturals >= 2^63 are D90: added once the repair is in /repo)
+        ]
         for ast in asts:
             out.append(Case(rng.choice([0, 0, 1, 2, 3]), ast, root, 0))
     return out
